@@ -382,6 +382,15 @@ def main_check(prop, tier, seed):
     nshards = plan.get('shards', 1)
     budget = plan.get('budget_s', 60)
     wall_cap = plan.get('wall_cap_s', budget * 4 + 120)
+    # witnesses of earlier runs must not be mistaken for this run's
+    rdir = os.path.join(os.environ.get('VERIF_REPLAY_DIR') or os.path.join(HOME, 'replays'), prop.ID)
+    if os.path.isdir(rdir):
+        for fn in os.listdir(rdir):
+            if fn.endswith('.json'):
+                try:
+                    os.remove(os.path.join(rdir, fn))
+                except OSError:
+                    pass
     prepare = getattr(prop, 'prepare', None)
     if prepare is not None:
         os.environ.update(prepare(tier, seed) or {})
